@@ -115,7 +115,7 @@ class Interp(Engine):
     def builtin(self, name) -> SV:
         if name in CLS or name in ("str", "int", "float", "bool", "bytes", "set", "frozenset", "type"):
             return s_py(ClassVal(name), "class")
-        if name in BUILTIN_EXC or name in self.exc_hier:
+        if name in BUILTIN_EXC or name in self.exc_hier or name in self.enum_members:
             return s_py(ClassVal(name), "class")
         if name in ("len", "isinstance", "callable", "hasattr", "getattr", "abs", "min", "max", "range",
                     "enumerate", "ord", "chr", "repr", "reversed", "round", "print", "sorted", "zip", "any", "all",
@@ -793,7 +793,12 @@ class Interp(Engine):
                 raise Unsupported("dict(args)")
             return self.new_dict()
         if n in ("set", "frozenset"):
-            raise Unsupported("set()")
+            if not args:
+                return s_py(frozenset())
+            items = self.iter_items(args[0], None)
+            if items is None:
+                raise Unsupported("set() of symbolic-length iterable")
+            return s_py(frozenset(self.concrete_key(self.refine(i)) for i in items))
         if n in self.enum_members:
             # OpCode(x): lookup by value
             v = self.refine(args[0])
